@@ -262,6 +262,49 @@ def case_oracle(case):
     return res
 
 
+def ddp_perlayer_queue_search(ctx, only=None):
+    """DistributedPerLayerOptimizer adds its noise inside per-parameter backward hooks and only PEEKS at the skip-signal
+    queue there (`pre_step` pops it).  With a prefetching loader the BatchSplittingSampler runs ahead, so several
+    signals are queued: the hook must read the signal of the CURRENT physical batch (the queue's head) – noise is drawn on
+    exactly the physical batches that end a logical batch, one tensor per parameter."""
+    import torch.distributed as dist
+    from opacus import GradSampleModule
+    from opacus.optimizers import DistributedPerLayerOptimizer
+    plan = [only] if only else [(ctx.rng.randrange(1 << 30), ctx.rng.choice([0, 1, 2, 3])) for _ in range(ctx.n(6, 40))]
+    for seed, ahead in plan:
+        import random as _r
+        rng = _r.Random(seed)
+        sizes = [rng.randint(1, 3) for _ in range(rng.randint(2, 4))]          # physical batches per logical batch
+        signals = [b for k in sizes for b in [True] * (k - 1) + [False]]
+        torch.manual_seed(3)
+        model = nn.Linear(3, 2)
+        saved = (dist.get_rank, dist.get_world_size)
+        dist.get_rank, dist.get_world_size = (lambda *a, **k: 0), (lambda *a, **k: 1)
+        try:
+            gsm = GradSampleModule(model)
+            opt = DistributedPerLayerOptimizer(torch.optim.SGD(model.parameters(), lr=0.0), noise_multiplier=1.0, max_grad_norm=[1.0, 1.0], expected_batch_size=2)
+        finally:
+            dist.get_rank, dist.get_world_size = saved
+        pushed, draws = 0, []
+        for i in range(len(signals)):
+            while pushed < len(signals) and pushed <= i + ahead:
+                opt.signal_skip_step(do_skip=signals[pushed])
+                pushed += 1
+            opt.zero_grad()
+            with rig.patched_normal("count") as log:
+                gsm(torch.ones(2, 3)).sum(1).mean().backward()
+            draws.append(len(log.calls))
+            opt.step()
+        want = [0 if s else 2 for s in signals]
+        ctx.case(("ddp-perlayer-queue", seed, ahead), nontrivial=ahead > 0 and any(signals), kind=f"ddp-perlayer-queue:ahead={ahead}")
+        if draws != want:
+            ctx.property_failure("C04:noise-blocks-per-step:ddp-perlayer:queued-signals",
+                                 f"DistributedPerLayerOptimizer, physical batches per logical batch {sizes}, sampler {ahead} batches ahead: noise tensors drawn per physical batch {draws}, "
+                                 f"expected {want} (only the batch that ends a logical batch is noised)", {"failing_input": {"oracle": "ddp-perlayer-queue", "seed": seed, "ahead": ahead}})
+        else:
+            ctx.validated()
+
+
 def engine_generator_search(ctx, only=None):
     """PrivacyEngine.make_private(noise_generator=g): the optimizer draws from g itself, g advances, and a second
     make_private on the same g (training in phases, two optimizers sharing a generator) continues the stream instead of
@@ -406,6 +449,7 @@ def run(ctx):
         history_cases(ctx)
         reproducibility_search(ctx)
     engine_generator_search(ctx)
+    ddp_perlayer_queue_search(ctx)
 
 
 def replay(ctx, rp):
@@ -416,14 +460,17 @@ def replay(ctx, rp):
             print("REPRODUCED:", res[0], res[1])
             ctx.violations.append(res[0])
             return
-    if isinstance(c, dict) and c.get("oracle") == "engine-generator":
+    if isinstance(c, dict) and c.get("oracle") in ("engine-generator", "ddp-perlayer-queue"):
         class Rec:
             found = []
             def case(self, *a, **k): pass
             def validated(self): pass
             def property_failure(self, key, what, rp2=None): self.found.append((key, what))
         rec = Rec()
-        engine_generator_search(rec, only=(c["gsm_mode"], c["clipping"], c["seed"]))
+        if c["oracle"] == "engine-generator":
+            engine_generator_search(rec, only=(c["gsm_mode"], c["clipping"], c["seed"]))
+        else:
+            ddp_perlayer_queue_search(rec, only=(c["seed"], c["ahead"]))
         for key, what in rec.found:
             print("REPRODUCED:", key, what)
             ctx.violations.append(key)
